@@ -39,7 +39,7 @@ RULE = ("per (class, D) in 39 problem classes x {2,10,30,50}: one fresh interpre
 ASSUMPTIONS = ["value of a call depends on the store only through the read footprint extracted by the translator "
                "(validated by the bit-identical comparisons on the explored histories)",
                "data files are the CEC2005 data (contents not modelled: theorems hold for all initial contents)",
-               "supported dimensions are {2,10,30,50}"]
+               "history / footprint scenarios use the dimensions {2,10,30,50}; optimum and lower bound are checked at every supported dimension"]
 TRUSTED = ["translator harness/translate_bench.py (AST abstract interpretation; validated by observed-vs-generated "
            "footprints on every event of every scenario)",
            "models: coq/theories/Bench.v; checker coq/theories/C20Check.v; frozen pre-repair table BenchPre.v; "
@@ -479,6 +479,38 @@ def run(ctx, rep):
                 rep.problem("optimum", f"{cls} D={D}: value at the prescribed optimal point is {y}, documented optimum {opt} "
                             f"(fix_accuracy {fix})", case, "optimum:" + cls, True, y, None, "C20 optimum")
     rep.hist("rowwise_bit_exact_of_%d" % len(keys), exact_rows)
+    # ---------------- every SUPPORTED dimension (problems_dict["dimentions"]: 2..100 for F1, F2, F4, F5, F6, F12, F13, 2..50 for F9):
+    # optimum at the point prescribed for that dimension, lower bound on a few points, output shape
+    import thefittest.benchmarks._optproblems as OPM0
+    for cls in classes:
+        if cls not in meta:
+            continue
+        extra_dims = [int(D) for D in meta[cls]["dims"] if int(D) not in DIMS]
+        for D in extra_dims:
+            opt, fix = meta[cls]["optimum"], meta[cls]["fix"]
+            tol = 1e-9 * max(1.0, abs(opt))
+            o = prescribed_optimum(cls, meta, D)
+            lo, hi = bounds_of(cls, meta)
+            rs = np.random.RandomState(ctx.seed * 131 + D)
+            Xr = rs.uniform(lo, hi, size=(5, D))
+            try:
+                inst = getattr(OPM0, cls)()
+                y0 = float(np.asarray(inst(o[None, :].copy()), dtype=np.float64)[0])
+                yr = np.asarray(inst(Xr.copy()), dtype=np.float64)
+            except Exception as e:   # noqa: BLE001
+                rep.problem("worker", f"{cls} D={D}: exception at a supported dimension: {type(e).__name__}: {e}", dict(kind="dim-sweep", cls=cls, D=D),
+                            "impl-exception:" + cls, True)
+                continue
+            rep.count("optimum-every-dimension", (cls, D))
+            if not abs(y0 - opt) <= fix:
+                rep.problem("optimum", f"{cls} D={D}: value at the prescribed optimal point is {y0}, documented optimum {opt} (fix_accuracy {fix})",
+                            dict(kind="optimum", cls=cls, D=D, opt=opt, fix=fix, x=dict(kind="explicit", rows=[[float(v).hex() for v in o]]), npseed=NPSEED),
+                            "optimum:" + cls, True, y0, None, "C20 optimum")
+            if yr.shape != (5,) or not np.all(yr >= opt - tol):
+                i = int(np.argmin(yr)) if yr.shape == (5,) else 0
+                rep.problem("lower-bound", f"{cls} D={D}: value {yr.tolist()} below the documented optimum {opt} (or wrong shape) inside the bounds",
+                            dict(kind="lower", cls=cls, D=D, opt=opt, tol=tol, x=dict(kind="explicit", rows=[[float(v).hex() for v in Xr[i]]]), npseed=NPSEED),
+                            "lower:" + cls, True, yr.tolist(), None, "C20 lower bound")
     # ---------------- large batches ("all batch sizes"): rows of a population of > 1024 individuals equal the rows alone
     import thefittest.benchmarks._optproblems as OPM
     noisy_names = {e["name"] for e in TR["entries"] if e.get("noisy")} if TR else set()
